@@ -417,7 +417,8 @@ def main_check(pid, tier):
 
     open_replays = {os.path.join(VERIF, k["replay"]) for k in kf if k.get("status") == "open" and k.get("replay")}
     n_corpus = 0
-    for path in sorted(_glob.glob(os.path.join(VERIF, "findings", "*.json"))):
+    corpus_files = sorted(_glob.glob(os.path.join(VERIF, "findings", "*.json"))) + sorted(_glob.glob(os.path.join(VERIF, "corpus", pid, "*.json")))
+    for path in corpus_files:
         if path in open_replays:
             continue
         try:
